@@ -29,7 +29,10 @@ REQUIRED_LABELS = {t: ["advance", "ancestor", "asked-brothers>=2", "multi-chunk-
 def field():
     return st.one_of(st.binary(max_size=40), st.binary(min_size=56, max_size=90),
                      st.binary(min_size=1, max_size=1), st.binary(min_size=32, max_size=32),
-                     st.binary(min_size=250, max_size=300))
+                     st.binary(min_size=250, max_size=300),
+                     # the edges of the RLP string forms
+                     st.sampled_from([0, 1, 55, 56, 255, 256]).flatmap(
+                         lambda n: st.binary(min_size=n, max_size=n)))
 
 
 @st.composite
